@@ -46,7 +46,7 @@ def deep_programs(tier):
 def plan(tier, seed):
     n = 12
     return [{"name": f"ast-{i}", "shard": i, "nshards": n, "rseed": seed * 31 + i,
-             "nmut": 150 if tier == "quick" else 5000, "big": tier == "thorough"} for i in range(n)]
+             "nmut": 400 if tier == "quick" else 5000, "big": tier == "thorough"} for i in range(n)]
 
 
 def _gen(ast, rp=False):
